@@ -12,7 +12,8 @@ JSON handler of the `PipeAgg` model (wire name `pipeagg`).
              "layout":[<template>..], "mwithin":[..]|null, "twice":false}],
  "batches":[{"a":[1,2],"b":[3,4]}, ..]}
 ```
-A value is a JSON number (scalar), `null`, an array (array-like) or an object (dict).
+A value is a JSON number (scalar), `null`, an array (list), `{"np": [...]}` (numpy array, any depth) or an
+object (dict; a dict-valued column never has a key "np").
 A mask template is `"t"`, `"f"`, `"m<i>"` (nested `== key` on feature column i), `"np<i>"` (the same as a
 1-D numpy bool array) or `{"dict":[[k, template],..]}`.
 Answer: `{"err":null|kind,"result":[{"metric":..,"slice":null|{"features":..,"values":..},"value":..},..]}`.
@@ -24,10 +25,17 @@ partial def parseVal (j : Json) : Except String Val :=
   match j with
   | .null => .ok .null
   | .num _ => do let i ← j.getInt?; return .leaf i
-  | .arr xs => do let vs ← xs.toList.mapM parseVal; return .seq vs
-  | .obj kvs => do
-    let vs ← kvs.toList.mapM fun (k, v) => do let v' ← parseVal v; return (k, v')
-    return .map vs
+  | .arr xs => do let vs ← xs.toList.mapM parseVal; return .seq false vs
+  | .obj kvs =>
+    match j.getObjVal? "np" with      -- {"np": [...]}: a numpy array
+    | .ok (.arr xs) => do
+      let vs ← xs.toList.mapM fun x => parseVal (match x with
+        | .arr _ => Json.mkObj [("np", x)]
+        | _ => x)
+      return .seq true vs
+    | _ => do
+      let vs ← kvs.toList.mapM fun (k, v) => do let v' ← parseVal v; return (k, v')
+      return .map vs
   | _ => .error s!"bad value {j.compress}"
 
 def parseBatch (j : Json) : Except String Batch := do
@@ -104,7 +112,7 @@ partial def parseMT (j : Json) : Except String MT :=
 /-- `get_mask(inputs, key)`: nested `== key` -/
 partial def leafEq (key : Int) : Val → Mask
   | .leaf v => if v = key then .tt else .ff
-  | .seq xs => .seq (xs.map (leafEq key))
+  | .seq _ xs => .seq (xs.map (leafEq key))
   | _ => .ff
 
 partial def evalMask (key : Int) (cols : List Val) : MT → Mask
@@ -116,7 +124,7 @@ partial def evalMask (key : Int) (cols : List Val) : MT → Mask
 
 def evalTop (key : Int) (cols : List Val) : MT → TopMask
   | .np c => .np ((match cols.getD c .null with
-      | .seq xs => xs
+      | .seq _ xs => xs
       | _ => []).map fun (x : Val) => match x with
       | .leaf v => v == key
       | _ => false)
